@@ -263,7 +263,7 @@ def prop(case, ctx):
         if key not in seen:
             seen.add(key)
             uniq.append((decl, size, what))
-    head = C_PRELUDE + cdef
+    head = C_PRELUDE + tg.cdef_of(context, for_c=True)
     prog = head + ''.join('extern %s;\n' % d for d, _, _ in uniq) + 'int main(void) {\n' + \
         ''.join('  printf("%%zu\\n", sizeof(%s));\n' % _var(d) for d, _, _ in uniq) + '  return 0;\n}\n'
     out = cc.compile_and_run(prog, ctx.tmp, allow_fail=True)
